@@ -847,8 +847,11 @@ namespace bloch::compiler {
         if (!check(TokenType::Semicolon)) {
             bool isFinal = match(TokenType::Final);
 
-            if (check(TokenType::Int) || check(TokenType::Float) || check(TokenType::Char) ||
-                check(TokenType::String) || check(TokenType::Bit) || check(TokenType::Qubit)) {
+            // forInit = variableDeclaration | expressionStatement: every primitive type starts
+            // a declaration here, as it does in a statement
+            if (check(TokenType::Int) || check(TokenType::Long) || check(TokenType::Float) ||
+                check(TokenType::Char) || check(TokenType::String) || check(TokenType::Bit) ||
+                check(TokenType::Qubit) || check(TokenType::Boolean)) {
                 initializer = parseVariableDeclaration(isFinal, false);
             } else {
                 if (isFinal) {
